@@ -60,6 +60,14 @@ fn main() {
         c15::hunt_late(args[2].parse().unwrap(), args[3].parse().unwrap(), args[4].parse().unwrap());
         return;
     }
+    if args[1] == "hunt-c14" {
+        c14::hunt(args[2].parse().unwrap(), args[3].parse().unwrap());
+        return;
+    }
+    if args[1] == "hunt-hzero" {
+        c05::hunt_hzero(args[2].parse().unwrap(), args[3].parse().unwrap(), args[4].parse().unwrap());
+        return;
+    }
     if args[1] == "hunt-c05" {
         // fvh hunt-c05 <n> <first> <count>
         c05::hunt(args[2].parse().unwrap(), args[3].parse().unwrap(), args[4].parse().unwrap());
